@@ -222,6 +222,7 @@ def analyse(case, obs):
     alive_at: dict[int, set] = {}     # stop id -> connections / attempts alive when it was requested
     nwhen = nstop = 0
     consecutive = 0
+    running = False               # Service.running: startService / stopService, whichever came last
     flag_at = flag_kind = None
     fail = None
 
@@ -239,6 +240,10 @@ def analyse(case, obs):
         name = op if isinstance(op, str) else op[0]
         noop = g == ["-"]
         issued_when = issued_stop = None
+        if name == "start":
+            running = True
+        if name == "stop":
+            running = False
         if name == "when":
             issued_when, nwhen = nwhen, nwhen + 1
             whens[issued_when] = {"lim": op[1], "fails": 0, "fired": False}
@@ -341,6 +346,13 @@ def analyse(case, obs):
                 if still:
                     bad(t, f"stopService Deferred {i} fired while {sorted(still)} (connection / attempt alive when "
                            f"stop was requested) is still open", "stop-fired-open")
+            if e[0] == "A" and not running:
+                bad(t, "a connection attempt was started although stopService was the last of start/stop "
+                       "(a stop while a restart is pending must cancel the restart)", "attempt-while-stopped")
+            if e[0] == "O" and not running:
+                bad(t, "a connection was opened for a service that is stopped", "connection-while-stopped")
+            if e[0] == "W" and ":c" in e and not running:
+                bad(t, "whenConnected on a service that is stopped / stopping returned a protocol", "when-connected-while-stopped")
             if e[0] == "A" and not (name in ("start", "adv") or (name == "drop" and any(x[0] == "S" for x in g))):
                 bad(t, "a connection attempt was started without start / the retry timer / a restart completing "
                        "(a lost or failed connection must wait for the retry delay)", "attempt-without-delay")
@@ -364,8 +376,9 @@ def analyse(case, obs):
                 bad(t, f"whenConnected Deferred(s) {late} unfired after a connection was made", "when-late")
         if any(e[0] == "S" for e in g):
             late = [i for i, w in whens.items() if not w["fired"]]
-            if late and name != "drop":
-                bad(t, f"whenConnected Deferred(s) {late} unfired although the service stopped", "when-late")
+            if late and not running:
+                bad(t, f"whenConnected Deferred(s) {late} pending at the stop were not failed with CancelledError "
+                       f"when the stopService Deferred fired", "when-late")
         if True:
             now_alive = {("c", k) for k in open_} | {("a", k) for k in pending}
             late = [i for i, f in stops.items() if not f and not (alive_at[i] & now_alive)]
@@ -417,13 +430,20 @@ def gen(rng, tier):
             letters = [l for l in letters if l not in "pq"]
         for n in range(0, depth + 1):
             for word in itertools.product(letters, repeat=n):
-                if n == depth and rng.random() > (0.05 if tier == "quick" else 0.2):
+                if n == depth and rng.random() > (0.02 if tier == "quick" else 0.2):
                     continue
                 cases.append({"delays": delays, "prep": prep, "ops": ["start"] + [ALPHA[l] for l in word]})
         for n in range(1, 3 if tier == "quick" else 4):
             for word in itertools.product(letters, repeat=n):
                 if word[0] != "s":
                     cases.append({"delays": delays, "prep": prep, "ops": [ALPHA[l] for l in word]})
+    # start/stop/whenConnected while Disconnecting / Restarting, the connection loss delivered afterwards
+    rl = 4 if tier == "quick" else 6
+    for delays, prep in [([1, 2], []), ([1, 2], ["defer"]), ([0, 1], ["ok"])]:
+        pre = ["start", "cok"] + (["pok"] if "defer" in prep else [])
+        for n in range(1, rl + 1):
+            for word in itertools.product("stwd", repeat=n):
+                cases.append({"delays": delays, "prep": prep, "ops": pre + [ALPHA[l] for l in word] + ["cok"]})
     for _ in range(400 if tier == "quick" else 15000):
         delays = [rng.choice([0, 1, 2, 3, 5]) for _ in range(rng.randrange(1, 4))]
         k = rng.random()
@@ -457,6 +477,8 @@ def corpus():
         {"delays": d, "prep": ["raise", "ok"], "ops": ["start", "cok", ["adv", 1], "cok", ["drop", 0], ["adv", 1], "cok"]},
         {"delays": d, "prep": ["defer"], "ops": ["start", "cok", "pfail", ["adv", 1], "cok"]},
         {"delays": d, "prep": ["defer"], "ops": ["start", "cok", ["drop", 0], "pok", ["when", None], "stop"]},
+        # stop while a restart is pending must cancel the restart (seeded C58-A)
+        {"delays": d, "prep": [], "ops": ["start", "cok", "stop", "start", ["when", None], "stop", ["drop", 0], "cok", ["when", None]]},
         # failure limits, retries, stop/restart while disconnecting
         {"delays": d, "prep": [], "ops": ["start", ["when", 1], ["when", 2], ["when", None], "cfail", ["adv", 1], "cfail",
                                           ["adv", 1], ["adv", 1], "cok", "stop", ["drop", 0]]},
@@ -515,10 +537,12 @@ SPEC = Spec(
     nontrivial=lambda c, o: ("O" in o and ("W" in o or "S" in o or "R" in o)),
     histogram=hist,
     rule="for three configurations (no hook; hook returning an unfired Deferred; hook raising on every other "
-         "connection): 'start' followed by every word of length <= 4 (quick, the longest length sampled 5%) / <= 5 "
+         "connection): 'start' followed by every word of length <= 4 (quick, the longest length sampled 2%) / <= 5 "
          "(thorough, the longest length sampled 20%) over {start, stop, whenConnected(None), whenConnected(1), connect ok, connect fail, prepare ok, "
          "prepare fail, drop oldest connection, advance 1s}, and every word of length <= 2 (quick) / 3 (thorough) not starting with start; "
-         "plus random histories of 6-60 ops with random retry delays, hook modes, failure limits 0-3 and clock steps; "
+         "plus, after a connection is established, every word of length <= 4 (quick) / 6 (thorough) over {start, stop, "
+         "whenConnected, drop} followed by a connect (stop/start/stop while Disconnecting or Restarting with the loss "
+         "delivered afterwards); plus random histories of 6-60 ops with random retry delays, hook modes, failure limits 0-3 and clock steps; "
          "non-trivial = a connection was opened and some waiter fired or a retry was scheduled; distinct by (case, observation)",
     trusted=["translator translate/c58.py (fail-closed extraction of the automat table from makeMachine)",
              "hand-written behaviours / dispatch / environment in coq/C58/Model.v (tied by this correspondence run only)",
